@@ -32,6 +32,8 @@ NonPodField(S, o) == \E n \in Emit(S) : DerivesPod(S, n, o) /\ "bool" \in LeafSc
 EncaseUnsupported(S, o) == o.enc /\ \E n \in Emit(S) : HostShareable(S, n) /\ (LeafScalars(S, n) \cap {"bool", "f64", "i64", "u64"}) # {}
 (* a host-shareable struct whose members are all builtins is emitted without fields; encase's derive refuses field-less structs *)
 EmptyEncaseStruct(S, o) == o.enc /\ \E n \in Emit(S) : HostShareable(S, n) /\ Fields(S, n) = << >>
+(* the front end accepts a struct that declares two members of one name; the Rust struct then declares a field twice *)
+DuplicateMember(S) == \E n \in Emit(S) : \E i, j \in DOMAIN Fields(S, n) : i # j /\ Fields(S, n)[i].name = Fields(S, n)[j].name
 ImplWithoutType(S) == \E i \in DOMAIN S.entries : S.entries[i].stage = "vertex" /\
                          \E j \in DOMAIN S.entries[i].params : S.entries[i].params[j].k = "struct" /\ S.entries[i].params[j].ty \notin Emit(S)
 AllIdents(S) ==
@@ -78,4 +80,5 @@ PredictedCauses(S, o) ==
   \cup (IF EntryConstClash(S) THEN {"EntryConstClash"} ELSE {})
   \cup (IF ConstShadowsLocal(S) THEN {"ConstShadowsLocal"} ELSE {})
   \cup (IF EmptyEncaseStruct(S, o) THEN {"EmptyEncaseStruct"} ELSE {})
+  \cup (IF DuplicateMember(S) THEN {"DuplicateMember"} ELSE {})
 =============================================================================
